@@ -89,3 +89,14 @@ func (rs *Resolved) VerifDraft() int {
 	}
 	return 2020
 }
+
+// VerifDynamicRefInitial returns the schema that s's $dynamicRef designates
+// lexically when it behaves dynamically (the schema used if no resource of
+// the dynamic scope declares the anchor), or nil.
+func (rs *Resolved) VerifDynamicRefInitial(s *Schema) *Schema {
+	info := rs.resolvedInfos[s]
+	if info == nil {
+		return nil
+	}
+	return info.dynamicRefInitial
+}
